@@ -15,3 +15,12 @@ Theorem C11_individual_command : forall sched add cur mx mn vm left, 0 <= add ->
   Rmin (@clamp_power R RNum sched cur mx mn vm) left <= indiv_command sched add cur mx mn vm left <= left.
 Proof. intros. split; [apply indiv_command_ge_schedule; assumption|apply indiv_command_le_left]. Qed.
 Print Assumptions C11_individual_command.
+
+(* the clamp_power model used above IS the translated source of util.clamp_power (generated/Src.v is regenerated
+   from /repo on every run; a change of the function's text breaks this obligation) *)
+From SV Require Import Kernel Tie.
+From SVG Require Import Src.
+Theorem C11_clamp_power_is_source : forall power cs_cur cs_max cs_min veh_min : R,
+  @clamp_power_src R RNum power cs_cur cs_max cs_min veh_min = @clamp_power R RNum power cs_cur cs_max cs_min veh_min.
+Proof. intros. apply clamp_power_is_source. Qed.
+Print Assumptions C11_clamp_power_is_source.
